@@ -129,6 +129,34 @@ Theorem C05_retry_packets_decode : forall m d, m_id m < 65536 -> m_qos m = 1 \/ 
   (forall b, rel m = Some b -> spec_decode b = Some (PPubRel (m_id m), [])).
 Proof. exact retry_packets_decode. Qed.
 
+(* length-prefixed fields (client id, will topic, will payload, user name, password, every SUBSCRIBE /
+   UNSUBSCRIBE filter, PUBLISH topic): a field longer than 65,535 bytes cannot be carried, and EVERY such
+   request yields the encoder's rejection outcome (the panic "string length overflow", before anything
+   is written) ... *)
+Theorem C05_long_fields_rejected :
+  (forall s, len s <= 65535 <-> exists b, pack_bytes s = Some b) /\
+  (forall c, connect_long c -> pack_connect c = None) /\
+  (forall m, 65535 < len (m_topic m) -> pack_publish m = None) /\
+  (forall id subs t q, In (t, q) subs -> 65535 < len t -> pack_subscribe id subs = None) /\
+  (forall id ts t, In t ts -> 65535 < len t -> pack_unsubscribe id ts = None).
+Proof.
+  exact (conj pack_bytes_defined_iff (conj connect_long_rejected (conj publish_long_rejected
+          (conj subscribe_long_rejected unsubscribe_long_rejected)))).
+Qed.
+
+(* ... while with every field within 65,535 bytes the encoders reach pack(), which is defined exactly for
+   bodies up to 268,435,455 bytes; the round trip theorems above then give the requested fields back *)
+Theorem C05_short_fields_packed :
+  (forall c, connect_short c -> exists body, pack_connect c = pack 16 body) /\
+  (forall id subs, Forall (fun tq => len (fst tq) <= 65535 /\ snd tq <= 2) subs ->
+     exists p, pack_subscribe id subs = pack 130 (uint16_bytes id ++ p)) /\
+  (forall id ts, Forall (fun t => len t <= 65535) ts ->
+     exists p, pack_unsubscribe id ts = pack 162 (uint16_bytes id ++ p)) /\
+  (forall typ body, len body <= 268435455 <-> exists b, pack typ body = Some b).
+Proof.
+  exact (conj connect_short_packs (conj subscribe_short_packs (conj unsubscribe_short_packs pack_defined_iff))).
+Qed.
+
 Print Assumptions C05_go_shifts.
 Print Assumptions C05_varint_defined.
 Print Assumptions C05_varint_roundtrip.
@@ -148,3 +176,5 @@ Print Assumptions C05_inbound_qos2_delivery.
 Print Assumptions C05_inbound_hands_encoded.
 Print Assumptions C05_retry_shape.
 Print Assumptions C05_retry_packets_decode.
+Print Assumptions C05_long_fields_rejected.
+Print Assumptions C05_short_fields_packed.
